@@ -466,13 +466,20 @@ PROPS = {
         "theorems": ["default_and_cap", "max_slippage_accept_iff", "belief_accept_iff", "tolerance_monotone_swap", "tolerance_capped",
                      "min_receive_enforced", "deposit_tolerance_above_one_refused", "cp_deposit_accept_iff", "tolerance_monotone_deposit",
                      "cp_exact_proportion_accepted", "ss_exact_proportion_rejected_witness",
-                     "MantraDex.C12Sys.swap_tx_within_slippage", "MantraDex.C12Sys.route_tx_min_receive", "MantraDex.C20Tx.swap_tx_belief_price"],
-        "extra_modules": ["MantraDex.Properties.C12Sys", "MantraDex.Properties.C20Tx"],
+                     "MantraDex.C12Sys.swap_tx_within_slippage", "MantraDex.C12Sys.route_tx_min_receive", "MantraDex.C20Tx.swap_tx_belief_price",
+                     "MantraDex.C13Tx.provide_tx_within_tolerance", "MantraDex.C13Tx.provide_tx_within_tolerance_locked",
+                     "MantraDex.C13Tx.provide_tx_tolerance_monotone", "MantraDex.C13Tx.provide_tx_tolerance_monotone_any",
+                     "MantraDex.C13Tx.provide_tx_tolerance_above_one_refused_partial", "MantraDex.C13Tx.provide_tx_tolerance_above_one_unchanged"],
+        "extra_modules": ["MantraDex.Properties.C12Sys", "MantraDex.Properties.C20Tx", "MantraDex.Properties.C13Tx"],
         "streams": {"swapmath": (4000, 200000), "mintmath": (4000, 200000), "pm_hist": (120, 3000)},
         "what": "swap/route: accept iff slippage/(return+slippage) <= min(tolerance or 1%, 50%) (or, with a belief price, iff return >= expected or "
                 "short by <= tolerance); monotone in the tolerance; > 50% capped; routes deliver >= minimum_receive or fail; constant-product deposit: "
                 "accept iff both deposit ratios*(1-tol) <= pool ratios, monotone, exact proportion always accepted, tolerance > 1 refused. "
-                "Stableswap deposit tolerance rejects exact-proportion deposits: F-11 witness (kernel evaluation). THROUGH THE RUNTIME (C12Sys): an accepted Swap transaction "
+                "Stableswap deposit tolerance rejects exact-proportion deposits: F-11 witness (kernel evaluation). DEPOSITS AS WHOLE TRANSACTIONS (C13Tx): an accepted two-coin ProvideLiquidity "
+                "with a tolerance into a constant-product pool with non-zero reserves satisfies the tolerance predicate on the reserves as they were BEFORE the deposit (locked or not); a transaction "
+                "accepted under t1 is accepted with the very same resulting world under any t2 in [t1, 100 %] - any funds, pool type, lock options, incl. the single-asset path through buffer, self-swap, "
+                "reply and second leg; a tolerance above 100 % is refused as a whole on every two-asset funded constant-product pool (the statement without the two-asset shape is refuted by an evaluated "
+                "three-asset pool with an empty reserve). THROUGH THE RUNTIME (C12Sys): an accepted Swap transaction "
                 "(any injected fault position) satisfied slippage/(return+slippage) <= min(max_slippage or 1%, 50%) on the pre-trade pool (swap_tx_within_slippage); an accepted route's "
                 "final output is at least minimum_receive (route_tx_min_receive); an accepted Swap under a belief price returned at least floor(offer/belief) or is short of it by at most the "
                 "effective tolerance (C20Tx.swap_tx_belief_price); a rejected transaction changes nothing (step)",
